@@ -154,6 +154,10 @@ func init() {
 	}
 	_ = nop
 
+	// stack capture of github.com/pkg/errors (used by cosmossdk.io/errors.Wrap): no stack, the error itself is kept
+	models["github.com/pkg/errors.WithStack"] = func(ex *Exec, fn *ssa.Function, args []Value) Value { return args[0] }
+	models["runtime.Callers"] = func(ex *Exec, fn *ssa.Function, args []Value) Value { return ex.ctx.Int(0) }
+
 	// ---- lava logging ----
 	L := "github.com/lavanet/lava/v5/utils."
 	models[L+"LavaFormatLog"] = func(ex *Exec, fn *ssa.Function, args []Value) Value {
